@@ -26,6 +26,10 @@ type c05case struct {
 	Rot       int      `json:"rot"` // rotation of the key list (changes vector offsets and producers)
 	Dup       int      `json:"dup"` // every key occurs dup times
 	Seed      uint64   `json:"seed"`
+	// Narrow: the rows are first redistributed by a key prefix of two columns (by this operator),
+	// then re-prefixed to their first column only, and then Op is applied: rows that agree in the
+	// first column were spread over the shards by the earlier placement and must be brought together.
+	Narrow string `json:"narrow,omitempty"`
 }
 
 // c05assign accumulates key -> shard over all runs of this process.
@@ -73,6 +77,16 @@ func c05spec(c c05case) Spec {
 		n.In = []int{last}
 		nodes = append(nodes, n)
 		last = len(nodes) - 1
+	}
+	if c.Narrow != "" {
+		// (x, y, 1) with x unique -> (y, x, 1): the first column now repeats (y = x/7)
+		addN(PNode{Op: "map", Out: []string{kinds[1], kinds[0], "int64"}, Src: []int{1, 0, 2}, Salt: 1})
+		addN(PNode{Op: "prefixed", P: 2})
+		addN(PNode{Op: c.Narrow})
+		addN(PNode{Op: "prefixed", P: 1})
+		addN(PNode{Op: c.Op, Salt: 1})
+		addN(PNode{Op: "writerfunc"})
+		return Spec{Nodes: nodes}
 	}
 	if p > 1 {
 		addN(PNode{Op: "prefixed", P: p})
@@ -135,6 +149,9 @@ func runC05case(t *vf.T, pool *sessionPool, c c05case) {
 	}
 	out := runSpec(ls, sp, [2]bigslice.Slice{}, true, 300*time.Second)
 	sigBase := fmt.Sprintf("op=%s key=%s", c.Op, strings.Join(c.Kinds, "+"))
+	if c.Narrow != "" {
+		sigBase = fmt.Sprintf("op=%s after %s on a wider prefix key=%s", c.Op, c.Narrow, strings.Join(c.Kinds, "+"))
+	}
 	switch {
 	case out.TimedOut:
 		t.Inconclusive("watchdog")
@@ -196,6 +213,9 @@ func runC05case(t *vf.T, pool *sessionPool, c c05case) {
 	// per-shard placement from the writerfunc after the redistributing operator
 	wi := len(sp.Nodes) - 1
 	p := len(c.Kinds)
+	if c.Narrow != "" {
+		p = 1
+	}
 	pr := probeFor(sp.Run)
 	nshard := rels[wi].nshard()
 	inRun := map[string]int{}
@@ -350,6 +370,27 @@ func runC05(r *vf.Runner) {
 	for _, k := range []string{"int", "string", "float64"} {
 		for _, n := range []int{2, 3} {
 			run(c05case{Conf: localP4, Kinds: []string{k}, Op: "reshard-same", Producers: n, NShard: n, KeySet: "random", NKeys: 100, Dup: 2, Seed: uint64(n)})
+		}
+	}
+	// a narrower key prefix after a redistribution by a wider one
+	for i, ks := range [][]string{{"int", "string"}, {"string", "int"}, {"int64", "int"}} {
+		for _, n := range []int{2, 3, 7} {
+			for _, pre := range []string{"reshuffle", "cogroup"} {
+				for _, op := range []string{"cogroup", "reshuffle", "fold"} {
+					if pre == "cogroup" && op == "fold" {
+						continue
+					}
+					if r.Quick() && (i+n)%2 == 1 && op != "cogroup" {
+						continue
+					}
+					for _, conf := range []sessConf{localP4, bm2} {
+						if conf.Kind != "local" && (n != 3 || i != 0) {
+							continue
+						}
+						run(c05case{Conf: conf, Kinds: ks, Op: op, Narrow: pre, Producers: n, NShard: n, KeySet: "random", NKeys: 150, Dup: 1, Seed: uint64(n + i)})
+					}
+				}
+			}
 		}
 	}
 	// multi-column prefixes
